@@ -328,7 +328,56 @@ def check_inline_deref(program, rep):
                nontrivial=False)
 
 
+def check_transient_state(program, rep):
+    """State a dispatcher keeps only while a delivery is in progress (the
+    event being delivered, with its arguments - which may be handlers) is
+    dropped on EVERY way out of the delivery.  In a @contextmanager helper the
+    statements after the `yield` are skipped when the managed block raises
+    unless they sit in a `finally`."""
+    disp = evrules.dispatcher_class(program)
+    n = 0
+    for c in [disp] + program.subclasses(disp):
+        for f in c.methods.values():
+            if not any((dotted(d.func if isinstance(d, ast.Call) else d)
+                        or '').split('.')[-1] == 'contextmanager'
+                       for d in f.node.decorator_list):
+                continue
+            params = set(f.params()[1:])
+
+            def selfstore(s):
+                return [t.attr for t in (
+                    s.targets if isinstance(s, ast.Assign) else [])
+                    if isinstance(t, ast.Attribute) and isinstance(
+                        t.value, ast.Name) and t.value.id == 'self']
+            body = f.node.body
+            for i, st in enumerate(body):
+                if not (isinstance(st, ast.Expr) and isinstance(
+                        st.value, ast.Yield)):
+                    continue
+                before = {a for s in body[:i] for a in selfstore(s)
+                          if any(isinstance(x, ast.Name) and x.id in params
+                                 for x in ast.walk(s.value))}
+                after = {a for s in body[i + 1:] for a in selfstore(s)}
+                n += 1
+                held = sorted(before & after)
+                rep.check(not held, 'C10.no-strong', f.where, st,
+                          'nothing that holds the arguments of the delivery '
+                          'is restored by statements an exception skips',
+                          f'self.{held[0] if held else ""} is given the '
+                          'arguments of the delivery before the `yield` and '
+                          'restored by a statement after it that is not in a '
+                          '`finally`: when a callback raises, the restore is '
+                          'skipped and the dispatcher keeps the event '
+                          'arguments (components, handlers) alive - a dropped '
+                          'handler is never collected and keeps receiving '
+                          'events', line=st.lineno)
+    if n == 0:
+        rep.ok('C10.no-strong', f'{disp.module.relpath}:EventDispatcher',
+               '@contextmanager helpers', 'none', nontrivial=False)
+
+
 def run(program, rep, tier):
+    check_transient_state(program, rep)
     check_clear_state(program, rep)
     check_owners(program, rep)
     # a queued event holds its arguments (components) strongly: it must leave
